@@ -1042,4 +1042,24 @@ MANIFEST_TEXT = {
     "C12": _mt("Server.tla with MaxRequests L in {0,1,2}", "Inv_C12 on ObsServer (yield only with fewer than L others tracked at the read instant; refusal only with at least L others; each refusal answered once with WouldBlock and never executed).", "DESIGN.md section 6, C12", "Carries known finding F7 by signature."),
 }
 
+
+# ------------------------------------------------------------------ round-4 additions to the manifest texts
+_SYS = (" Additionally System.tla (the whole accept pipeline and spawned clients, 23 actions) is model-checked against the end-to-end rules of "
+        "ObsSys.tla, its phased behaviours are exported as schedules, and the real stack (server::incoming combinators, spawn_incoming, "
+        "NewClient::spawn on a current-thread tokio runtime with a paused clock, run until idle) is executed on them and on seeded random "
+        "schedules; Trace_Sys.tla judges the recorded traces with the same rules (%s).")
+for _p, _r in (("C01", "Inv_C01sys"), ("C02", "Inv_C02sys"), ("C04", "Inv_C04sys"), ("C10", "Inv_C10sys"), ("C12", "Inv_C12sys"), ("C13", "Inv_C13sys")):
+    MANIFEST_TEXT[_p] = dict(MANIFEST_TEXT[_p], text=MANIFEST_TEXT[_p]["text"] + _SYS % _r)
+_OTEL = (" The chain family (real client -> server -> handler -> client chains of depth 1-3) is executed without a tracing subscriber, under a "
+         "process-wide OpenTelemetry layer and with the layer scoped to the server side (untraced callers, trace id 0 included); handlers "
+         "also report context::current() and use it for nested calls; Trace_Chain.tla judges deadlines and trace contexts at every hop.")
+MANIFEST_TEXT["C07"] = dict(MANIFEST_TEXT["C07"], text=MANIFEST_TEXT["C07"]["text"] + _OTEL,
+                            note="Exploration level for the codec crossing (single hops); chains of depth 1-3 are executed in memory with virtual transit delays.")
+MANIFEST_TEXT["C18"] = dict(MANIFEST_TEXT["C18"], text=MANIFEST_TEXT["C18"]["text"] + _OTEL,
+                            note=MANIFEST_TEXT["C18"]["note"].replace("Only the client hop is bound to the code so far; server hop and chains are modelled but not yet replayed.", "Chains are settle-driven rather than individually scheduled."))
+MANIFEST_TEXT["C04"] = dict(MANIFEST_TEXT["C04"], note=MANIFEST_TEXT["C04"]["note"].replace("The multi-hop cascade is not yet bound to the code.", "The multi-hop cascade is executed by the chain family (Chain.tla / Trace_Chain.tla), including handlers that own the only handle of their downstream client."))
+MANIFEST_TEXT["C16"] = dict(MANIFEST_TEXT["C16"], text=MANIFEST_TEXT["C16"]["text"] + " Two-rpc services enumerated by Glue.tla are compiled and their generated "
+                            "clients called against a peer that answers with a well-formed response of the other rpc's type (Trace_Glue.tla: no panic).")
+MANIFEST_TEXT["C17"] = dict(MANIFEST_TEXT["C17"], text=MANIFEST_TEXT["C17"]["text"] + " The shape family includes #[cfg]-gated rpcs (present or compiled out).")
+
 NOT_APPLICABLE = {}
